@@ -61,6 +61,10 @@ def run(rep, tier, seed):
         if ci % 5 == 2 and W >= 40:
             # the application shows a right-side prompt: it is printed once more when the line is accepted
             cs["rprompt"] = ["[12:00]", "R", "<< right side"][ci % 3]
+        if ci % 7 == 3:
+            # a transient prompt: once the call is over the library paints it with the line once more on its way out
+            cs["tprompt"] = ["% ", "", "transient prompt> "][ci % 3]
+            cs["inputrc"] += "set prompt-transient on\n"
         sugg = rng.random() < 0.2
         if sugg:
             # a long history line whose autosuggestion wraps below the typed text
